@@ -13,26 +13,27 @@ import (
 // controller sends its request bytes segment by segment and parses what the
 // server delivered.
 type hclient struct {
-	id      int
-	name    string
-	w       *World
-	ip      string
-	port    int
-	segs    [][]byte // request bytes (possibly several pipelined/sequential requests) cut into sends
-	next    int
-	methods []string // one per expected response
-	end     *sim.End
-	buf     []byte
-	resps   []*sim.Resp
-	done    bool
-	aborted bool
-	perr    error // framing error
+	id             int
+	name           string
+	w              *World
+	ip             string
+	port           int
+	opaque         bool     // response sizes are not reproducible (stack traces in visible error pages): keep them out of the log
+	segs           [][]byte // request bytes (possibly several pipelined/sequential requests) cut into sends
+	next           int
+	methods        []string // one per expected response
+	end            *sim.End
+	buf            []byte
+	resps          []*sim.Resp
+	done           bool
+	aborted        bool
+	perr           error // framing error
 	closedByServer bool
-	onDone  func()
-	holdOpen bool // keep the connection open after the last response (caller closes)
-	needResp []int // per segment: number of final responses that must have arrived before it is sent (sequential keep-alive requests)
-	abortAt  int   // >0: reset the connection instead of sending segment number abortAt (fault)
-	onAbort  func()
+	onDone         func()
+	holdOpen       bool  // keep the connection open after the last response (caller closes)
+	needResp       []int // per segment: number of final responses that must have arrived before it is sent (sequential keep-alive requests)
+	abortAt        int   // >0: reset the connection instead of sending segment number abortAt (fault)
+	onAbort        func()
 }
 
 // cutBytes cuts b at up to n random points.
@@ -71,6 +72,7 @@ func (h *hclient) events(add func(sim.Event)) {
 				panic("harness: dial refused")
 			}
 			h.end = e
+			e.Opaque = h.opaque
 			e.OnData = h.onData
 		}})
 		return
